@@ -116,6 +116,27 @@ def run(m: Model, r: Report, tier: str) -> None:
                 "; ".join(ast.unparse(s).split("\n")[0][:80] for s in h.body[:2])
         r.check(ok, "R1", f"{ep.qualname}#Exception",
                 f"expected-exception mapping: {detail}; documented: instance of any CATCHED_EXCEPTIONS class (incl. subclasses) -> 74, else 70", loc=ep.loc)
+    bc = m.require_class(f"{BASE}.BaseCommand")
+    n_ce = 0
+    for c in m.subclasses(bc, strict=True):
+        own = c.class_attrs.get("CATCHED_EXCEPTIONS")
+        if own is None:
+            continue
+        n_ce += 1
+        inherited: list[str] = []
+        for k in m.mro(c)[1:]:
+            v = k.class_attrs.get("CATCHED_EXCEPTIONS")
+            if v is not None:
+                inherited = [ast.unparse(e) for e in v.elts] if isinstance(v, ast.List) else ["?"]
+                parent = k
+                break
+        names = {ast.unparse(e) for e in ast.walk(own) if isinstance(e, (ast.Name, ast.Attribute))}
+        extends = any(f"{k.name}.CATCHED_EXCEPTIONS" in ast.unparse(own) for k in m.mro(c)[1:])
+        missing = [x for x in inherited if x not in names]
+        r.check(extends or not missing, "R1", f"{c.qualname}.CATCHED_EXCEPTIONS#extends",
+                f"the override drops {missing} of the inherited expected exceptions: for this command kind they now exit with 70 instead of the documented 74", loc=c.loc)
+    if n_ce < 1:
+        raise AnalysisError("no CATCHED_EXCEPTIONS definition below BaseCommand")
     rets = [n for n in walk_no_nested(ep.node) if isinstance(n, ast.Return)]
     r.check(any(ast.unparse(x.value) == EC for x in rets if x.value is not None) and
             all(ast.unparse(x.value) in (EC, "exitcodes.OSFILE") for x in rets if x.value is not None),
@@ -163,6 +184,18 @@ def run(m: Model, r: Report, tier: str) -> None:
     # handler of CalledProcessError exists
     r.check(any(isinstance(n, ast.ExceptHandler) and n.type is not None and "CalledProcessError" in ast.unparse(n.type) for n in ast.walk(rh.node)),
             "R3", f"{rh.qualname}#handler", "run_hook no longer handles CalledProcessError", loc=rh.loc)
+    sp = [n for n in ast.walk(rh.node) if isinstance(n, ast.Call) and ast.unparse(n.func) in ("run", "subprocess.run")]
+    if len(sp) != 1:
+        raise AnalysisError(f"{rh.qualname}: subprocess call not found")
+    kw = {k.arg: k.value for k in sp[0].keywords}
+    via_shell = isinstance(kw.get("shell"), ast.Constant) and kw["shell"].value is True
+    checked = isinstance(kw.get("check"), ast.Constant) and kw["check"].value is True
+    sp_try = [t for t in ast.walk(rh.node) if isinstance(t, ast.Try) and any(sp[0] is x for b_ in t.body for x in ast.walk(b_))]
+    htypes = [ast.unparse(h.type) if h.type is not None else "<bare>" for t in sp_try for h in t.handlers]
+    catches_os = any(any(x in t for x in ("OSError", "Exception", "<bare>", "BaseException")) for t in htypes)
+    r.check((via_shell and checked and any("CalledProcessError" in t for t in htypes)) or catches_os, "R3", f"{rh.qualname}#hook-cannot-raise",
+            f"the hook is started with shell={ast.unparse(kw['shell']) if 'shell' in kw else 'False'} and only {htypes} is handled: without a shell a missing / non-executable "
+            "script raises FileNotFoundError / PermissionError out of run_hook (pre-hook: the run never starts and nothing is recorded; post-hook: entry_point raises)", loc=rh.loc)
     hook_calls = [n for n in walk_no_nested(ep.node) if isinstance(n, ast.Call) and ast.unparse(n.func) == "self.run_hook"]
     as_stmt = [s for s in ast.walk(ep.node) if isinstance(s, ast.Expr) and s.value in hook_calls]
     r.check(len(hook_calls) == 2 and len(as_stmt) == 2, "R3", f"{ep.qualname}#hook-result-unused",
@@ -360,6 +393,16 @@ def run(m: Model, r: Report, tier: str) -> None:
         r.check(ok, "R6", f"{arun.qualname}#setup-before-main", "main() is reachable without setup()", loc=arun.loc)
     rets = [ast.unparse(n.value) for n in walk_no_nested(arun.node) if isinstance(n, ast.Return) and n.value is not None]
     r.check(rets == ["exitcodes.OK"], "R6", f"{arun.qualname}#returns-ok", f"run returns {rets}", loc=arun.loc)
+    ret_nodes = {n.id for n in g.nodes.values() if n.kind == "return"} | {g.exit_return}
+    for phase, nodes_ in (("setup", setup), ("main", main), ("teardown", teardown)):
+        for nid in nodes_:
+            leak = set()
+            for b, k in g.succ[nid]:
+                if k == "exc":
+                    leak |= g.reachable_from(b) & ret_nodes
+            r.check(not leak, "R6", f"{arun.qualname}#{phase}-failure-propagates",
+                    f"an exception raised by {phase}() can end in a normal return of run() (exitcodes.OK): the run then exits 0 and META.json / run_meta record 0 "
+                    "instead of 70 / 74", loc=arun.loc)
     # Scanner.teardown overrides must chain to super().teardown() (transport close, dumpcap stop)
     AsyncScript = m.require_class(f"{BASE}.AsyncScript")
     for c in m.subclasses(m.require_class(f"{BASE}.Scanner"), strict=True):
